@@ -117,6 +117,16 @@ impl CountComputer {
                             break;
                         }
                         let record = { records_arc_clone.lock().unwrap().next() };
+                        #[cfg(feature = "verif")]
+                        ktio::verif::emit(
+                            "ctr.took",
+                            [
+                                record.as_ref().map_or(ktio::verif::NONE, |r| r.n as u64),
+                                self.chunks,
+                                0,
+                                0,
+                            ],
+                        );
                         if let Some(record) = record {
                             pbar.inc(1);
                             total_records_clone.fetch_add(1, Ordering::Acquire);
@@ -138,6 +148,8 @@ impl CountComputer {
                             break;
                         }
                     }
+                    #[cfg(feature = "verif")]
+                    ktio::verif::emit("ctr.exit", [self.chunks, 0, 0, 0]);
                 });
             }
         });
